@@ -20,7 +20,12 @@ RULE = ('Hypothesis cases: n in 1..5 distinct keys, m in 0..n (+ a few m > n), a
         'otherwise, verdict invariant under every order. non-trivial = the multiset contains a duplicate / flag '
         'variant / outsider / corruption, or m = n, or a non-identity order; distinct by (n, m, item kinds, orders).')
 ASSUMPTIONS = ['keys are distinct, so a signature is valid under at most one listed key (greedy matching is exact)',
+               'a lock that lists the same key twice is outside the quantifier (n distinct keys): there one signer can confirm two slots with '
+               'two encodings of one signature (64 bytes / 64 bytes + flag byte 00)',
                'signatures are produced with libsodium; a sample of positive verdicts is re-verified with the RFC 8032 reference']
+
+
+BELOW = [b'', b'\x01', b'\xff', bytes(64), bytes(65)]
 
 
 def seeds_for(tag, n):
@@ -89,8 +94,8 @@ def predicate(truth):
     return 'true', may_raise
 
 
-def run_bare(keys, sigs, allowed, m, n, fields, verify=False):
-    code = b''.join(push(s) for s in sigs) + b''.join(push(k) for k in keys)
+def run_bare(keys, sigs, allowed, m, n, fields, verify=False, below=()):
+    code = b''.join(push(s) for s in below) + b''.join(push(s) for s in sigs) + b''.join(push(k) for k in keys)
     code += bytes([C['OP_CHECK_MULTISIG_VERIFY' if verify else 'OP_CHECK_MULTISIG'], allowed, m, n])
     if verify:
         code += bytes([C['OP_TRUE']])
@@ -116,36 +121,41 @@ def evaluate(case):
     fails = []
     n, fields, allowed = case['n'], case['fields'], case['allowed']
     sd, sigs, truth = build_items(case)
-    m = len(sigs)
+    # a short witness: the instruction asks for more signatures than were supplied (nothing, or foreign items, below them)
+    short = int(case.get('m_extra', 0))
+    below = [BELOW[i % len(BELOW)] for i in case.get('below', [])] if short else []
+    m = len(sigs) + short
     keys = [bytes(SigningKey(sd[i]).verify_key) for i in range(n)]
     want, may_raise = predicate(truth)
-    info = {'want': want, 'm': m, 'n': n}
+    if short:
+        want, may_raise = 'not-true', True
+    info = {'want': want, 'm': m, 'n': n, 'short': short}
     verdicts = set()
-    for kp, sp in orders(case, n, m):
+    for kp, sp in orders(case, n, len(sigs)):
         ks = [keys[i] for i in kp]
         ss = [sigs[i] for i in sp]
-        got = run_bare(ks, ss, allowed, m, n, fields)
-        true = got == ('ok', [b'\xff'])
+        got = run_bare(ks, ss, allowed, m, n, fields, below=below)
+        true = got[0] == 'ok' and got[1][-1:] == [b'\xff']
         verdicts.add(true)
         if want == 'true' and not true:
             fails.append(('multisig/rejects-valid-quorum', 'n=%d m=%d order %r %r -> %r' % (n, m, kp, sp, got)))
             break
         if want == 'not-true':
             if true:
-                kinds = sorted({t[0] for t in truth})
+                kinds = sorted({t[0] for t in truth}) + (['short-witness'] if short else [])
                 fails.append(('multisig/true-without-m-distinct-valid-signers/%s' % '+'.join(kinds),
                               'n=%d m=%d items %r order %r %r' % (n, m, [t[:2] for t in truth], kp, sp)))
                 break
             if got[0] != 'ok' and not may_raise:
                 fails.append(('multisig/error-without-malformed-item', '%r' % (got,)))
                 break
-            if got[0] == 'ok' and got[1] != [b'\x00']:
+            if got[0] == 'ok' and got[1] != [b'\x00'] and not short:
                 fails.append(('multisig/stack-shape', '%r' % (got,)))
                 break
     if len(verdicts) > 1 and not fails:
         fails.append(('multisig/verdict-depends-on-order', 'n=%d m=%d' % (n, m)))
     # _VERIFY form, identity order
-    gotv = run_bare(keys, sigs, allowed, m, n, fields, verify=True)
+    gotv = run_bare(keys, sigs, allowed, m, n, fields, verify=True, below=below)
     if want == 'true' and gotv != ('ok', [b'\xff']):
         fails.append(('multisig/VERIFY-form-raises-for-valid-quorum', '%r' % (gotv,)))
     if want == 'not-true' and gotv[0] == 'ok':
@@ -154,7 +164,7 @@ def evaluate(case):
     if case.get('builder') and all(t[0] in ('valid', 'outsider', 'flagvar', 'dup', 'nonperm') for t in truth) and m <= n:
         try:
             lock = T.make_multisig_lock(keys, m, '%02x' % allowed)
-            wit = b''
+            wit = b''.join(push(x) for x in below)
             for t, it in zip(truth, case['items']):
                 signer = t[1] if t[1] is not None else n + (it[1] % 2)
                 wit += bytes(T.make_single_sig_witness(sd[signer], fields, '%02x' % t[4]))
@@ -210,7 +220,15 @@ def cases(draw):
             items.append(['flagvar', draw(st.integers(0, n - 1)), draw(st.integers(0, 255))])
         else:
             items.append([kind, draw(st.integers(0, n - 1)), draw(st.integers(0, 255)), draw(st.integers(0, 511))])
-    return {'check': 'multisig', 'n': n, 'items': items, 'allowed': allowed, 'fields': fields,
+    m_extra, below = 0, []
+    if draw(st.integers(0, 3)) == 0:
+        m_extra = draw(st.integers(1, 2))
+        if m_extra > len(items):
+            pass
+        cut = draw(st.integers(0, len(items)))
+        items = items[:cut]                       # possibly no signature at all
+        below = draw(st.lists(st.integers(0, 4), max_size=2))
+    return {'check': 'multisig', 'n': n, 'items': items, 'allowed': allowed, 'fields': fields, 'm_extra': m_extra, 'below': below,
             'tag': draw(st.binary(min_size=1, max_size=2)), 'order_seed': draw(st.integers(0, 2 ** 16)),
             'builder': draw(st.booleans()), 'refcheck': draw(st.integers(0, 9)) == 0}
 
@@ -223,6 +241,8 @@ def task_main(ctx):
         ctx.case((c['n'], c['items'], c['allowed'], sorted(c['fields']), c['order_seed']), nt)
         ctx.count('expect:' + info['want'])
         ctx.count('m=%d' % info['m'])
+        if info['short']:
+            ctx.count('short-witness:%s' % ('nothing-below' if not c['below'] else 'items-below'))
         for k in kinds:
             ctx.count('item:' + k)
         for s, d in fails:
